@@ -1477,7 +1477,8 @@ def _collect_block(lines: List[str], start: int) -> Tuple[List[str], int]:
     i = start + 1
     block: List[str] = []
     while i < len(lines):
-        if not lines[i].strip():
+        if not lines[i].strip() or lines[i].strip().startswith('#'):
+            # blank and comment-only lines never end a block, whatever their column
             block.append(lines[i]); i += 1; continue
         if _indent_of(lines[i]) <= base:
             break
@@ -1506,7 +1507,7 @@ def _collect_if_structure(lines: List[str], start: int) -> Tuple[List[str], int]
     snippet.extend(block)
     while i < len(lines):
         raw = lines[i]
-        text = raw.strip()
+        text = _strip_inline_comment(raw).strip()
         if not text:
             snippet.append(raw)
             i += 1
@@ -1529,7 +1530,7 @@ def _collect_try_structure(lines: List[str], start: int) -> Tuple[List[str], int
     snippet.extend(block)
     while i < len(lines):
         raw = lines[i]
-        text = raw.strip()
+        text = _strip_inline_comment(raw).strip()
         if not text:
             snippet.append(raw)
             i += 1
@@ -2592,7 +2593,7 @@ def _parse_simple_lines(
             j = next_idx
             while j < len(snippet):
                 probe_raw = snippet[j]
-                probe_text = probe_raw.strip()
+                probe_text = _strip_inline_comment(probe_raw).strip()
                 if not probe_text:
                     j += 1
                     continue
@@ -2713,7 +2714,7 @@ def _parse_simple_lines(
 
             while j < len(snippet):
                 probe_raw = snippet[j]
-                probe_text = probe_raw.strip()
+                probe_text = _strip_inline_comment(probe_raw).strip()
                 if not probe_text:
                     j += 1
                     continue
@@ -4254,7 +4255,7 @@ def parse(src: str) -> Program:
     i = 0
     while i < len(lines):
         raw = lines[i]
-        text = raw.strip()
+        text = _strip_inline_comment(raw).strip()
 
         if not text or text.startswith('#'):
             i += 1; continue
